@@ -50,6 +50,7 @@ struct J<'a> {
     sh:        &'a mut Shard,
     idx:       u64,
     replaying: bool,
+    sampled:   bool,
 }
 
 impl J<'_> {
@@ -61,10 +62,16 @@ impl J<'_> {
         if self.replaying {
             println!("  {} expected={} got={:?}", what, expected, got);
         }
+        let mismatch = matches!(&got, Ok(b) if *b != expected);
+        let want_sample = !self.sampled && self.sh.samples.len() < 3;
+        let c = if mismatch || want_sample { case() } else { Value::Null };
+        if want_sample {
+            self.sampled = true;
+            self.sh.samples.push(json!({"judgement": what, "expected": expected, "library": format!("{:?}", got), "case": c.clone()}));
+        }
         match got {
             Ok(b) if b == expected => {}
             Ok(b) => {
-                let c = case();
                 let kind = if expected { "false-reject" } else { "false-accept" };
                 let sig = format!("c19:{}:{}:{:016x}", what, kind, vmon_core::fnv(c.to_string().as_bytes()));
                 self.sh.violate(self.idx, kind, sig, format!("{}: library returned {} but the construction history says {}", what, b, expected), c);
@@ -730,7 +737,7 @@ pub fn run(ctx: &ChildCtx, sh: &mut Shard) {
         ctx.begin_case(idx);
         let mut r = ctx.case_rng(idx);
         let mut cr = CR(Rng::new(r.next()));
-        let mut j = J { sh, idx, replaying: ctx.replaying() };
+        let mut j = J { sh, idx, replaying: ctx.replaying(), sampled: false };
         let (tag, h) = match idx % 10 {
             0 => ("bls_single", case_bls_single(&mut j, &mut r, &mut cr)),
             1 | 2 => ("agg_multi", case_agg_multi(&mut j, &mut r, &mut cr, multi_sizes)),
